@@ -119,3 +119,90 @@ def search(rng, binaries, log):
         if f:
             return (c, f, il)
     return None
+
+
+# ---------------------------------------------------------------------------------------------------------------
+# the send paths of the real http_connection (sim_driver): a header string that would put an empty line into the head
+# (or is not a sequence of terminated lines) must be REFUSED by every send overload, for GET and for HEAD requests,
+# inside the handler and later; a header string without one goes out with exactly one empty line, at the end.
+
+SEND_HEADER_STRINGS = [
+    b"", b"X-A: 1\r\n", b"X-A: 1\r\nX-B: 2\r\n", b"X-A: 1\nX-B: 2\n",
+    b"X-A: 1\r\n\r\nX-B: 2\r\n", b"\r\nX-A: 1\r\n", b"\nX-A: 1\r\n", b"X-A: 1\n\nX-B: 2\n", b"X-A: 1\n\r\nX-B: 2\r\n",
+    b"X-A: 1\r\n\r\n", b"X-A: 1", b"X-A: 1\r\nX-B: 2", b"X-A: 1\r\n\n", b"\r\n",
+]
+
+
+def send_path_cases(tier, rng):
+    cases = []
+    n = 0
+    reqs = {"GET": b"GET / HTTP/1.1\r\nHost: a\r\n\r\n", "HEAD": b"HEAD / HTTP/1.1\r\nHost: a\r\n\r\n"}
+    strings = list(SEND_HEADER_STRINGS)
+    for _ in range(10 if tier == "quick" else 200):
+        lines = b"".join(b"X-%d: v%d\r\n" % (i, rng.below(100)) for i in range(rng.range(1, 3)))
+        pos = rng.below(len(lines) + 1)
+        strings.append(lines[:pos] + rng.choice([b"\r\n", b"\n", b"\r", b"\n\n", b"\r\n\r\n", b""]) + lines[pos:])
+    for hs in strings:
+        blanks, nlines, terminated = blank_lines(hs)
+        bad = bool(blanks) or (hs != b"" and not terminated)
+        for method in ("GET", "HEAD"):
+            for ovl in ("body", "bufs", "nobody"):
+                for (policy, translate) in (("sync", 1), ("sync", 0), ("deferred", 1)):
+                    opts = "server cont=s flavour=tcp policy=%s translate=%d" % (policy, translate)
+                    if policy == "sync":
+                        lines = [opts + " anshs=%s ansovl=%s" % (hx(hs), ovl), "accept", "read c0 " + hx(reqs[method])]
+                    else:
+                        lines = [opts, "accept", "read c0 " + hx(reqs[method]),
+                                 "app-send c0 st=200 hs=%s b=7231 ovl=%s" % (hx(hs), ovl)]
+                    lines += ["wdone c0", "state"]
+                    cases.append(Case("c13-send-%d" % n, lines, {"bad": bad, "hs": hs}))
+                    n += 1
+    return cases
+
+
+def extra_checks(tier, rng, binaries, log):
+    import os
+    import vlib
+    try:
+        sim = binaries.get("sim_driver") or vlib.build_harness("sim_driver", log)
+    except vlib.BuildError as e:
+        return [(False, "sim_driver does not build against the current tree: " + str(e)[-300:], "build sim_driver", {})]
+    cases = send_path_cases(tier, rng)
+    impl, _ = vlib.run_parallel(sim, cases, "c13send")
+    model = {}
+    if os.path.exists(vlib.model_binary()):
+        model, _ = vlib.run_parallel(vlib.model_binary(), cases, "c13sendm")
+    res = []
+    bad = None
+    diff = None
+    import gen_sim
+    for c in cases:
+        out = impl.get(c.id) or []
+        wires = [l for l in out if l.startswith("io wire c0 ")]
+        writes = [l for l in out if l.startswith("io write c0 ")]
+        if any(l.startswith("abort") for l in out):
+            bad = bad or (c, "abort: " + [l for l in out if l.startswith("abort")][0])
+        elif c.meta["bad"]:
+            if writes or wires:
+                head = bytes.fromhex(wires[0].split()[3]) if wires and wires[0].split()[3] != "-" else b""
+                bad = bad or (c, "a response whose header string %r would put an empty line into the head (or is not a sequence of "
+                              "terminated lines) was not refused: the connection wrote %r" % (c.meta["hs"], head[:200]))
+        else:
+            if not wires:
+                bad = bad or (c, "a response with the well-formed header string %r was not sent" % c.meta["hs"])
+            else:
+                data = bytes.fromhex(wires[0].split()[3])
+                end = data.find(b"\r\n\r\n")
+                first_blank = min([i for i in (data.find(b"\n\n"), data.find(b"\n\r\n")) if i >= 0] or [-1])
+                if end < 0 or first_blank + 1 < end:
+                    bad = bad or (c, "the head written for header string %r has an empty line before its end: %r" % (c.meta["hs"], data[:200]))
+        if model:
+            a, b, kf = gen_sim.comparable(out, model.get(c.id) or [])
+            if a != b:
+                diff = diff or (c, "model and implementation differ:\n impl  %s\n model %s" % (a[-6:], b[-6:]))
+    if bad:
+        res.append((False, bad[1], bad[0].script(), {}))
+    elif diff:
+        res.append((False, "correspondence (send paths): " + diff[1], diff[0].script(), {}))
+    res.append((True, "", "", {"send_path_cases": len(cases)}))
+    return res
